@@ -18,6 +18,7 @@ var paramSrc = core.RepoRoot + "/examples/parameter"
 
 // runCase is one execution of the real simulator on a generated project.
 type runCase struct {
+	Warm     *gen.Project // executed first in the same session (nil: a fresh session)
 	P        *gen.Project
 	Root     string
 	Trace    string
@@ -31,8 +32,27 @@ type runCase struct {
 
 // execProject writes the project into its own root directory, runs the worker on it and returns the case.
 func execProject(c *core.Ctx, worker string, p *gen.Project, idx int, skip string, header map[string]interface{}, timeout time.Duration) *runCase {
+	return execProjectWarm(c, worker, p, nil, idx, skip, header, timeout)
+}
+
+// warmSibling returns a copy of q that shares the identifiers of p (soil id, plot, polygon, field, weather code): run
+// before p in the same session it fills whatever the session keeps per identifier.
+func warmSibling(p, q *gen.Project) *gen.Project {
+	b, _ := json.Marshal(q)
+	var w gen.Project
+	if json.Unmarshal(b, &w) != nil {
+		return nil
+	}
+	w.Name = p.Name + "w"
+	w.Weather.Days = q.Weather.Days
+	w.Soil.ID, w.PlotNr, w.PolyID, w.FieldID, w.Weather.FCode = p.Soil.ID, p.PlotNr, p.PolyID, p.FieldID, p.Weather.FCode
+	w.ExtraArgs = nil
+	return &w
+}
+
+func execProjectWarm(c *core.Ctx, worker string, p, warm *gen.Project, idx int, skip string, header map[string]interface{}, timeout time.Duration) *runCase {
 	root := c.Sub(fmt.Sprintf("run-%03d-%s", idx, p.Name))
-	rc := &runCase{P: p, Root: root, Trace: filepath.Join(root, "trace.ndjson"), Gen: header, Skip: skip}
+	rc := &runCase{P: p, Warm: warm, Root: root, Trace: filepath.Join(root, "trace.ndjson"), Gen: header, Skip: skip}
 	if err := p.Write(root, paramSrc); err != nil {
 		c.Machineryf("cannot write project %s: %v", p.Name, err)
 		rc.Exit = -9
@@ -46,6 +66,12 @@ func execProject(c *core.Ctx, worker string, p *gen.Project, idx int, skip strin
 	b, _ := json.Marshal(h)
 	os.WriteFile(rc.Trace, append(b, '\n'), 0644)
 	args := []string{"run", "-root", root, "-out", rc.Trace, "-append", "-id", p.Name}
+	if warm != nil {
+		wroot := filepath.Join(root, "warm")
+		if err := warm.Write(wroot, paramSrc); err == nil {
+			args = append(args, "-warm-root", wroot, "-warm-args", strings.Join(warm.Args(), "|"))
+		}
+	}
 	if skip != "" {
 		args = append(args, "-skip", skip)
 	}
@@ -214,7 +240,21 @@ func execAll(c *core.Ctx, worker string, ps []*gen.Project, skip string, header 
 		if header != nil {
 			h = header(ps[i])
 		}
-		out[i] = execProject(c, worker, ps[i], i, skip, h, timeout)
+		// every third run is not the first of its session: a sibling of the preceding project (same identifiers) runs before it
+		var warm *gen.Project
+		if i%3 == 1 && c.Replay == "" && !ps[i].NoWarm {
+			warm = warmSibling(ps[i], ps[i-1])
+		} else if c.Replay != "" {
+			if b, err := os.ReadFile(filepath.Join(c.Replay, "warm.json")); err == nil {
+				var w gen.Project
+				if json.Unmarshal(b, &w) == nil {
+					if wb, err := os.ReadFile(filepath.Join(c.Replay, "warm_weather.json")); err == nil && json.Unmarshal(wb, &w.Weather.Days) == nil {
+						warm = &w
+					}
+				}
+			}
+		}
+		out[i] = execProjectWarm(c, worker, ps[i], warm, i, skip, h, timeout)
 	})
 	return out
 }
@@ -268,6 +308,13 @@ func saveProjectReplay(c *core.Ctx, tr *traceResult, cfg string, extra map[strin
 	rd := c.NewReplayDir()
 	b, _ := json.MarshalIndent(tr.Case.P, "", " ")
 	os.WriteFile(filepath.Join(rd, "project.json"), b, 0644)
+	if tr.Case.Warm != nil {
+		// the run was not the first of its session: the project that ran before it is part of the case
+		xb, _ := json.MarshalIndent(tr.Case.Warm, "", " ")
+		os.WriteFile(filepath.Join(rd, "warm.json"), xb, 0644)
+		xw, _ := json.Marshal(tr.Case.Warm.Weather.Days)
+		os.WriteFile(filepath.Join(rd, "warm_weather.json"), xw, 0644)
+	}
 	wb, _ := json.Marshal(tr.Case.P.Weather.Days)
 	os.WriteFile(filepath.Join(rd, "weather.json"), wb, 0644)
 	meta := map[string]interface{}{"property": c.ID, "cfg": cfg, "violated": tr.Violated, "line": tr.Line, "event": tr.Event, "seed": c.Seed, "tier": c.Tier, "skip": tr.Case.Skip}
